@@ -2,6 +2,8 @@ package props
 
 import (
 	"fmt"
+	"math"
+	"time"
 	"html/template"
 	"sort"
 	"strings"
@@ -68,6 +70,12 @@ var c04Pool = []kval{
 	{"k_sidn", func() interface{} { return WithAnyID{nil} }},
 	{"k_sidf", func() interface{} { return WithAnyID{func() {}} }},
 	{"k_slst", func() interface{} { return []interface{}{WithSliceID{nil}, "x", nil} }},
+	{"k_sstr", func() interface{} { return []fmt.Stringer{fixedTime} }},       // slice of a non-empty interface type
+	{"k_nptm", func() interface{} { var p *time.Time; return p }},             // typed nil *time.Time
+	{"k_nstr", func() interface{} { var p *ValStringer; return p }},           // typed nil pointer whose type has a value-receiver String
+	{"k_emb", func() interface{} { return WithNilEmbedded{} }},                // field promoted through a nil embedded pointer
+	{"k_mnan", func() interface{} { return map[float64]int{math.NaN(): 1} }}, // NaN key
+	{"k_nhtm", func() interface{} { var p *htmler; return p }},                // typed nil pointer implementing HTMLer by value
 }
 
 // expression-produced kinds (cannot be injected as data)
@@ -150,7 +158,7 @@ func init() {
 			return s
 		},
 		Run:  c04Run,
-		Rule: "matrices over a pool of 48 injected value kinds (nil, bools, every int/uint/float width, strings, HTML, slices/arrays/pointers to them, maps of 5 key/value typings, nil map/slice/pointer/func, struct, funcs incl. variadic, iterator, chan, time, error) plus 11 expression-produced kinds (user function object, its call, slice+x, array/hash literal, literals, unknown identifier): (operator x L x R), !L / if(L) / emission / silent statement, L[I] (+ .Field/.Method tails), L[I]=V (all triples), member and method access incl. nil receivers, for over L, L(args<=3), user functions with p params x a args (0..4), and every built-in helper taken from plush.Helpers at run time x argument lists of length <=2 (+block, +options map). Oracle: (out,nil) or (\"\",err); no panic, no step-budget exhaustion, no worker crash. All cases are non-trivial (each is a distinct kind combination).",
+		Rule: "matrices over a pool of 54 injected value kinds (nil, bools, every int/uint/float width, strings, HTML, slices/arrays/pointers to them, maps of 5 key/value typings, nil map/slice/pointer/func, struct, funcs incl. variadic, iterator, chan, time, error) plus 11 expression-produced kinds (user function object, its call, slice+x, array/hash literal, literals, unknown identifier): (operator x L x R), !L / if(L) / emission / silent statement, L[I] (+ .Field/.Method tails), L[I]=V (all triples), member and method access incl. nil receivers, for over L, L(args<=3), user functions with p params x a args (0..4), and every built-in helper taken from plush.Helpers at run time x argument lists of length <=2 (+block, +options map). Oracle: (out,nil) or (\"\",err); no panic, no step-budget exhaustion, no worker crash. All cases are non-trivial (each is a distinct kind combination).",
 		Bound: func(th bool) string {
 			if th {
 				return "all matrices complete; plus one level of nesting (L op R) op' X for every operator pair over the pool"
@@ -217,7 +225,7 @@ func c04Run(t *engine.T, shard string) {
 			}
 		}
 	case "member":
-		members := []string{"Name", "Kid", "NilKid", "Kids", "hidden", "Missing", "Hello", "PtrHello", "Kid.Name", "NilKid.Name", "Kid.Kid.Name", "Kids.Name", "Attrs.k"}
+		members := []string{"X", "Name", "Kid", "NilKid", "Kids", "hidden", "Missing", "Hello", "PtrHello", "Kid.Name", "NilKid.Name", "Kid.Kid.Name", "Kids.Name", "Attrs.k"}
 		calls := []string{"Hello()", "PtrHello()", "Add(1)", "Add()", "Add(k_s)", "Add(1, 2)", "Missing()", "hidden()", "Name()", "Self().Name", "Self().Hello()", "Fail()", "GetKids()[0].Name", "Kid.Hello()", "NilKid.Hello()", "NilKid.PtrHello()", "Len()", "Next()", "Error()", "String()", "Unix()"}
 		for _, l := range c04Pool {
 			for _, m := range members {
